@@ -109,3 +109,42 @@ func VerifC13SourceList() {
 		}
 	}
 }
+
+// VerifC13NamesSelectable: on a registry that has already been filtered once
+// and then gained a lint of an arbitrary kind, every listed name is accepted as
+// an include and as an exclude name, and an include selects it.
+func VerifC13NamesSelectable() {
+	r, es := c08Registry(1, 1, 1)
+	_, err := r.Filter(FilterOptions{IncludeNames: []string{es[0].name}})
+	zz.Assert(err == nil, "filtering by a listed name succeeds")
+	kind := zz.Int()
+	zz.Assume(kind >= 0 && kind <= 2)
+	late := "e_late"
+	switch kind {
+	case 0:
+		zz.Assert(r.registerCertificateLint(zzNewCert(10, late, RFC5280)) == nil, "late certificate lint registers")
+	case 1:
+		zz.Assert(r.registerRevocationListLint(zzNewCRL(10, late, RFC5280)) == nil, "late CRL lint registers")
+	default:
+		zz.Assert(r.registerOcspResponseLint(zzNewOCSP(10, late, RFC6960)) == nil, "late OCSP lint registers")
+	}
+	names := r.Names()
+	zz.Assert(len(names) == 4, "the new lint is listed")
+	for _, n := range names {
+		fr, err := r.Filter(FilterOptions{IncludeNames: []string{n}})
+		zz.Assert(err == nil && fr != nil, "every listed lint name is accepted as an include name")
+		if fr != nil {
+			zz.Assert(len(fr.Names()) == 1 && fr.Names()[0] == n, "including a listed name selects exactly that lint")
+		}
+		fx, err := r.Filter(FilterOptions{ExcludeNames: []string{n}})
+		zz.Assert(err == nil && fx != nil, "every listed lint name is accepted as an exclude name")
+		if fx != nil {
+			zz.Assert(len(fx.Names()) == 3, "excluding a listed name drops exactly that lint")
+		}
+	}
+	for _, s := range r.Sources() {
+		var l SourceList
+		zz.Assert(l.FromString(string(s)) == nil && len(l) == 1 && l[0] == s, "every listed source is accepted by the source-list parser")
+	}
+	zz.Cover("names selectable")
+}
